@@ -1,0 +1,49 @@
+//! Verification hooks (compiled only with `--cfg dilithium_verif`).
+//!
+//! RNG tap: every request the library makes to the random number generator is
+//! recorded per thread (number of bytes and the bytes served); a test harness can
+//! also install a script of bytes that is served instead of `rand::thread_rng()`.
+//! With the cfg flag off this module does not exist and nothing changes.
+use std::cell::RefCell;
+use std::collections::VecDeque;
+
+thread_local! {
+    static SCRIPT: RefCell<Option<VecDeque<u8>>> = RefCell::new(None);
+    static LOG: RefCell<Vec<Vec<u8>>> = RefCell::new(Vec::new());
+}
+
+/// Install (Some) or remove (None) the scripted byte stream of the current thread.
+pub fn set_script(bytes: Option<Vec<u8>>) {
+    SCRIPT.with(|s| *s.borrow_mut() = bytes.map(VecDeque::from));
+}
+
+/// Take the log of RNG requests made on the current thread since the last call.
+pub fn take_log() -> Vec<Vec<u8>> {
+    LOG.with(|l| std::mem::take(&mut *l.borrow_mut()))
+}
+
+/// Serve `buf` from the script if one is installed. Returns true when served.
+pub fn rng_script(buf: &mut [u8]) -> bool {
+    let served = SCRIPT.with(|s| {
+        let mut s = s.borrow_mut();
+        match s.as_mut() {
+            None => false,
+            Some(q) => {
+                assert!(q.len() >= buf.len(), "verif_hooks: RNG script exhausted");
+                for b in buf.iter_mut() {
+                    *b = q.pop_front().unwrap();
+                }
+                true
+            }
+        }
+    });
+    if served {
+        rng_log(buf);
+    }
+    served
+}
+
+/// Record one RNG request (called after the bytes have been produced).
+pub fn rng_log(buf: &[u8]) {
+    LOG.with(|l| l.borrow_mut().push(buf.to_vec()));
+}
